@@ -196,7 +196,11 @@ func (c *Ctx) Proofs() {
 	}
 	thm := regexp.MustCompile(`(?m)^Theorem\s+(\w+)`).FindAllStringSubmatch(string(src), -1)
 	// hygiene gate over the whole development
-	bad := hygiene(coq)
+	// hygiene gate: every file props/<ID>.v and extract/X<nn>.v depend on (thorough tier: the whole development)
+	bad := hygieneFiles(depClosure(coq, []string{file, filepath.Join(coq, "extract", "X"+c.ID[1:]+".v")}))
+	if !c.Quick() {
+		bad = hygiene(coq)
+	}
 	c.Oblige("side-condition", "no Admitted/Axiom/Parameter/guard switches in coq/", len(bad) == 0, strings.Join(bad, "; "))
 	// are the compiled dependencies there?
 	mk := exec.Command("timeout", "1500", "make", "-C", coq, "props/"+c.ID+".vo")
@@ -236,6 +240,42 @@ var reSecOpen = regexp.MustCompile(`^\s*Section\s+\w+`)
 var reSecEnd = regexp.MustCompile(`^\s*End\s+\w+`)
 var reModOpen = regexp.MustCompile(`^\s*Module\s+(Type\s+)?\w+\s*\.`)
 
+// depClosure returns the .v files reachable from roots through `From V Require Import a.b c.d.` lines.
+func depClosure(coq string, roots []string) []string {
+	seen := map[string]bool{}
+	var order []string
+	var visit func(f string)
+	visit = func(f string) {
+		if seen[f] {
+			return
+		}
+		b, err := os.ReadFile(f)
+		if err != nil {
+			return
+		}
+		seen[f] = true
+		order = append(order, f)
+		src := stripComments(string(b))
+		for _, m := range regexp.MustCompile(`From\s+V\s+Require\s+(?:Import|Export)\s+([A-Za-z0-9_.\s]+?)\.\s`).FindAllStringSubmatch(src+" ", -1) {
+			for _, mod := range strings.Fields(m[1]) {
+				visit(filepath.Join(coq, strings.ReplaceAll(mod, ".", "/")+".v"))
+			}
+		}
+	}
+	for _, r := range roots {
+		visit(r)
+	}
+	return order
+}
+
+func hygieneFiles(files []string) []string {
+	var bad []string
+	for _, f := range files {
+		bad = append(bad, hygieneFile(f)...)
+	}
+	return bad
+}
+
 // hygiene scans every .v file under dir (comments removed) for declarations that would
 // introduce an axiom or switch a kernel check off; Variable/Hypothesis are allowed inside Sections only.
 func hygiene(dir string) []string {
@@ -244,36 +284,42 @@ func hygiene(dir string) []string {
 		if err != nil || info.IsDir() || !strings.HasSuffix(path, ".v") {
 			return nil
 		}
-		b, err := os.ReadFile(path)
-		if err != nil {
-			return nil
-		}
-		src := stripComments(string(b))
-		depth := 0
-		var stack []bool // true = section
-		for i, l := range strings.Split(src, "\n") {
-			if reBad.MatchString(l) {
-				bad = append(bad, fmt.Sprintf("%s:%d: %s", path, i+1, strings.TrimSpace(l)))
-			}
-			switch {
-			case reSecOpen.MatchString(l):
-				stack = append(stack, true)
-				depth++
-			case reModOpen.MatchString(l):
-				stack = append(stack, false)
-			case reSecEnd.MatchString(l):
-				if n := len(stack); n > 0 {
-					if stack[n-1] {
-						depth--
-					}
-					stack = stack[:n-1]
-				}
-			case reCtx.MatchString(l) && depth == 0:
-				bad = append(bad, fmt.Sprintf("%s:%d: outside a Section: %s", path, i+1, strings.TrimSpace(l)))
-			}
-		}
+		bad = append(bad, hygieneFile(path)...)
 		return nil
 	})
+	return bad
+}
+
+func hygieneFile(path string) []string {
+	var bad []string
+	b, err := os.ReadFile(path)
+	if err != nil {
+		return nil
+	}
+	src := stripComments(string(b))
+	depth := 0
+	var stack []bool // true = section
+	for i, l := range strings.Split(src, "\n") {
+		if reBad.MatchString(l) {
+			bad = append(bad, fmt.Sprintf("%s:%d: %s", path, i+1, strings.TrimSpace(l)))
+		}
+		switch {
+		case reSecOpen.MatchString(l):
+			stack = append(stack, true)
+			depth++
+		case reModOpen.MatchString(l):
+			stack = append(stack, false)
+		case reSecEnd.MatchString(l):
+			if n := len(stack); n > 0 {
+				if stack[n-1] {
+					depth--
+				}
+				stack = stack[:n-1]
+			}
+		case reCtx.MatchString(l) && depth == 0:
+			bad = append(bad, fmt.Sprintf("%s:%d: outside a Section: %s", path, i+1, strings.TrimSpace(l)))
+		}
+	}
 	return bad
 }
 
